@@ -192,6 +192,18 @@ def structure(draw, ground=False, max_wires=4, max_seg=10, min_seg=1, seg_lo=1 /
                 for e in ('p1', 'p2'):
                     if abs(w[e][2]) < 1e-12:
                         w[e][2] = 0.0
+    # the directions so far are axes and diagonals: in a quarter of the cases a small shear (0.3..3 degrees, heights
+    # unchanged, so grounded ends stay grounded) takes vertical wires slightly off the vertical and right angles
+    # slightly off 90 degrees
+    if draw(st.integers(0, 3)) == 0:
+        eps = math.tan(math.radians(draw(st.floats(0.3, 3.0))))
+        phi = draw(st.floats(0, 2 * math.pi))
+        for w in wires:
+            for e in ('p1', 'p2'):
+                z = w[e][2]
+                w[e][0] += eps * math.cos(phi) * z
+                w[e][1] += eps * math.sin(phi) * z
+        info['sheared'] = True
     # reversal and order
     for w in wires:
         if draw(st.booleans()):
